@@ -57,6 +57,8 @@ type Strat struct {
 	Doc  string
 	// LateKey: known-finding key of a strategy that emits n+1 actions, every one a day late.
 	LateKey string
+	// ThresholdPair: F[0], F[1] are a buy/sell threshold pair ordered by Fix (GenConfigLoose).
+	ThresholdPair bool
 	// DefectKey / DefectRule: known contradiction of the documented rule (C06).
 	DefectKey  string
 	DefectRule func(s strategy.Strategy, f Fields) []Expect
@@ -89,6 +91,22 @@ func (st Strat) GenConfig(t *rapid.T) reg.Config {
 	}
 	if st.Fix != nil {
 		st.Fix(&c)
+	}
+	return c
+}
+
+// GenConfigLoose is GenConfig for the properties that make no use of the decision rule (counts,
+// warm-up, termination, no look-ahead): where the first two float parameters are a pair of
+// thresholds that GenConfig keeps in the conventional order (so that the rule oracle is
+// unambiguous), they are swapped in a third of the draws - an empty or inverted hold band is a
+// configuration like any other for those properties.
+func (st Strat) GenConfigLoose(t *rapid.T) reg.Config {
+	c := st.GenConfig(t)
+	if st.ThresholdPair && len(c.F) >= 2 && rapid.IntRange(0, 2).Draw(t, "thresholds_swapped") == 0 {
+		c.F[0], c.F[1] = c.F[1], c.F[0]
+		if rapid.Bool().Draw(t, "thresholds_equal") {
+			c.F[1] = c.F[0]
+		}
 	}
 	return c
 }
